@@ -6,6 +6,7 @@ import (
 	"errors"
 	"fmt"
 	"reflect"
+	"runtime"
 	"strconv"
 	"strings"
 	"sync"
@@ -89,6 +90,16 @@ func (s *Server) doScanCommon(cmd redcon.Command) ([]interface{}, []byte, error)
 				}
 				go func(index int, handle common.MergeCommandFunc) {
 					defer wg.Done()
+					// outside of the connection goroutine and its recover: a panic in the handler
+					// must fail this part of the scan, not the whole process
+					defer func() {
+						if e := recover(); e != nil {
+							buf := make([]byte, 4096)
+							n := runtime.Stack(buf, false)
+							sLog.Infof("handle scan command %v panic: %s:%v", string(cmd.Args[0]), buf[:n], e)
+							results[index] = fmt.Errorf("ERR handle command %v failed: %v", string(cmd.Args[0]), e)
+						}
+					}()
 					var err error
 					results[index], err = handle(cmds[index])
 					if err != nil {
